@@ -62,9 +62,16 @@ type Buffer struct {
 
 // Reader is wrapper of bytes.Reader
 type Reader struct {
-	ref []byte
-	buf *bytes.Reader
+	ref   []byte
+	buf   *bytes.Reader
+	depth int // nesting depth of the containers being skipped
 }
+
+// MaxSkipDepth is the deepest nesting of structs, lists and maps the reader
+// follows while it skips fields it does not know.
+const MaxSkipDepth = 512
+
+var errTooDeep = fmt.Errorf("nesting deeper than %d", MaxSkipDepth)
 
 //go:nosplit
 func bWriteU8(w *bytes.Buffer, data uint8) error {
@@ -355,6 +362,7 @@ func (b *Buffer) Grow(size int) {
 func (b *Reader) Reset(data []byte) {
 	b.buf.Reset(data)
 	b.ref = data
+	b.depth = 0
 }
 
 //go:nosplit
@@ -457,6 +465,14 @@ func (b *Reader) skipFieldSimpleList() error {
 }
 
 func (b *Reader) skipField(ty byte) error {
+	switch ty {
+	case MAP, LIST, StructBegin:
+		if b.depth >= MaxSkipDepth {
+			return errTooDeep
+		}
+		b.depth++
+		defer func() { b.depth-- }()
+	}
 	switch ty {
 	case BYTE:
 		b.Skip(1)
